@@ -1,6 +1,6 @@
 (* C08 -- archives of every supported protocol keep loading with the right loader.
    Only statements, each closed by `exact`; Snapshot.v is regenerated from /repo on every run. *)
-From Skv Require Import PyStr Json Registry RegistryFacts.
+From Skv Require Import PyStr Json Registry RegistryFacts Node GetTree Fuel.
 From Gen Require Import Snapshot.
 Open Scope Z_scope.
 
@@ -40,6 +40,17 @@ Theorem C08_unregistered :
   forall reg cur l, (forall pk, find reg l pk = None) -> forall pk, lookup reg cur l pk = None.
 Proof. exact unregistered. Qed.
 Print Assumptions C08_unregistered.
+
+(* ... and get_tree then raises the TypeError naming that loader, at any nesting position, whatever the protocol *)
+Theorem C08_unregistered_raises_naming_it :
+  forall E proto fuel extra sl m j l sid hk pk cm cc,
+    jget j (K "__id__") = Ok sid -> jhash sid = Ok hk -> memo_mem hk m = false ->
+    jindex j (K "__loader__") = Ok (JStr l) -> jhash proto = Ok pk ->
+    (forall pk', find (e_reg E) l pk' = None) ->
+    jindex j (K "__module__") = Ok cm -> jindex j (K "__class__") = Ok cc ->
+    get_tree (S fuel) E proto extra sl m j = Raise (ENoLoader l).
+Proof. exact get_tree_unregistered. Qed.
+Print Assumptions C08_unregistered_raises_naming_it.
 
 (* everything the current dump can emit has a loader at the current protocol *)
 Theorem C08_emits_registered :
